@@ -90,3 +90,12 @@ func VerifActive(s *ServantProxy) []endpoint.Endpoint {
 	}
 	return nil
 }
+
+// VerifModHashList returns the endpoint list installed in the manager's mod-hash selector, in slot order.
+func VerifModHashList(s *ServantProxy) []endpoint.Endpoint {
+	if em, ok := s.manager.(*endpointManager); ok && em.activeEpModHash != nil {
+		l, _ := em.activeEpModHash.VerifEndpoints()
+		return l
+	}
+	return nil
+}
